@@ -73,7 +73,6 @@ func (e *engine) getCompiledModule(module *wasm.Module, listeners []experimental
 				cm.listenerAfterTrampolines[i] = after
 			}
 		}
-		e.addCompiledModuleToMemory(module, cm)
 		ssaBuilder := ssa.NewBuilder()
 		machine := newMachine()
 		be := backend.NewCompiler(context.Background(), machine, ssaBuilder)
@@ -81,6 +80,9 @@ func (e *engine) getCompiledModule(module *wasm.Module, listeners []experimental
 
 		// Set the finalizer.
 		e.setFinalizer(cm.executables, executablesFinalizer)
+
+		// Published last: concurrent users of the engine must not find a module without entry preambles.
+		e.addCompiledModuleToMemory(module, cm)
 	}
 	return
 }
